@@ -5,6 +5,7 @@ import (
 	"go/token"
 	"go/types"
 	"sort"
+	"strings"
 
 	"golang.org/x/tools/go/ssa"
 
@@ -328,4 +329,494 @@ func waitingTests(r *core.Run, fn *ssa.Function) ([]guard.Atom, map[ssa.Value]bo
 		atoms = append(atoms, guard.Eq(guard.Exact(res.Of(bo.X).String()), "0"))
 	}
 	return atoms, vals
+}
+
+// ---------------------------------------------------------------- accrual clocks
+//
+// ruleAccrualClock (T-accrual-clock): a market worker accrues income as rate x (height - LastRewardAt). Whenever a
+// function adds such an accrual to Worker.Reward and then stores the worker, it must have moved the clock
+// (LastRewardAt := current height) before that store on every path: a stored reward that already contains the
+// interval, with the old clock, is accrued a second time by the next settlement (claim, release, append), so the
+// rewards recorded exceed what the orders paid into the market escrow.
+func ruleAccrualClock(r *core.Run, id string) {
+	const rewardField = "market/types.Worker.Reward.Amount"
+	const clockField = "market/types.Worker.LastRewardAt"
+	n := 0
+	for _, f := range r.P.SortedFuncs(r.ConsensusFuncs()) {
+		if r.P.IsGenerated(f) || len(f.Blocks) == 0 {
+			continue
+		}
+		res := r.Resolver(f)
+		type at struct {
+			b *ssa.BasicBlock
+			i int
+		}
+		var accr []*ssa.Store
+		var accrAt []at
+		clock := map[*ssa.BasicBlock][]int{}
+		persist := map[*ssa.BasicBlock][]int{}
+		for _, b := range f.Blocks {
+			for i, ins := range b.Instrs {
+				switch x := ins.(type) {
+				case *ssa.Store:
+					switch fieldPath(x.Addr) {
+					case rewardField:
+						if t := res.Of(x.Val).String(); strings.Contains(t, ".LastRewardAt") {
+							accr = append(accr, x)
+							accrAt = append(accrAt, at{b, i})
+						}
+					case clockField:
+						if normT(res.Of(x.Val).String()) == "sdk.Context.BlockHeight()" {
+							clock[b] = append(clock[b], i)
+						}
+					}
+				case ssa.CallInstruction:
+					if _, cs := res.CalleeName(x.Common()); len(cs) > 0 && persistsRecord(r, cs, "market/types.Worker") {
+						uses := false
+						for _, a := range x.Common().Args {
+							if shortTypeName(a.Type()) == "market/types.Worker" {
+								uses = true
+							}
+						}
+						if uses {
+							persist[b] = append(persist[b], i)
+						}
+					}
+				}
+			}
+		}
+		for k, st := range accr {
+			n++
+			key := core.Key(id, r.KeyName(f), fmt.Sprintf("accrual#%d", k+1))
+			a := accrAt[k]
+			// search forward from the accrual for a persist that is reached without passing a clock store
+			var bad []*ssa.BasicBlock
+			type state struct {
+				b    *ssa.BasicBlock
+				from int
+			}
+			seen := map[*ssa.BasicBlock]bool{}
+			prev := map[*ssa.BasicBlock]*ssa.BasicBlock{}
+			q := []state{{a.b, a.i + 1}}
+			for len(q) > 0 && bad == nil {
+				s := q[0]
+				q = q[1:]
+				// first event in this block at or after s.from
+				ev, evIdx := "", len(s.b.Instrs)
+				for _, i := range clock[s.b] {
+					if i >= s.from && i < evIdx {
+						ev, evIdx = "clock", i
+					}
+				}
+				for _, i := range persist[s.b] {
+					if i >= s.from && i < evIdx {
+						ev, evIdx = "persist", i
+					}
+				}
+				if ev == "persist" {
+					for x := s.b; x != nil; x = prev[x] {
+						bad = append([]*ssa.BasicBlock{x}, bad...)
+						if x == a.b {
+							break
+						}
+					}
+					break
+				}
+				if ev == "clock" {
+					continue
+				}
+				for _, nx := range s.b.Succs {
+					if !seen[nx] {
+						seen[nx] = true
+						prev[nx] = s.b
+						q = append(q, state{nx, 0})
+					}
+				}
+			}
+			if bad == nil {
+				r.Discharge(id, key, r.P.Pos(st.Pos()), "every store of the worker after the accrual is preceded by LastRewardAt := current height")
+			} else {
+				r.Violate(id, key, r.P.Pos(st.Pos()), r.P.Name(f)+" adds the income accrued since Worker.LastRewardAt to Worker.Reward and stores the worker on a path that does not set LastRewardAt to the current height first: the next settlement accrues the same interval again, so recorded rewards (paid from the market escrow) exceed what the orders deposited", pathDesc(r, bad))
+			}
+		}
+	}
+	r.Floor("worker_accruals", n, 3)
+}
+
+// ---------------------------------------------------------------- settled orders lose their shards
+//
+// ruleSettledShardsRemoved (T-settled-shards): model.TerminateOrder removes the order. Where the orders of a data
+// model are settled that way (Terminate, force push), every success path that continues after such a call runs a
+// loop that removes the collected shard records to its end: an exit that skips that loop leaves shards stored whose
+// order no longer exists (they name a missing order, stay assigned to their providers and are never released).
+func ruleSettledShardsRemoved(r *core.Run, id string, anchors ...string) {
+	n := 0
+	term := []string{"model/keeper.Keeper.TerminateOrder", "sao/types.ModelKeeper.TerminateOrder"}
+	rem := []string{"order/keeper.Keeper.RemoveShard", "model/types.OrderKeeper.RemoveShard", "sao/types.OrderKeeper.RemoveShard"}
+	// exitsOfRemovalLoops: exit edges of the loops of g that call RemoveShard in every iteration
+	exitsOfRemovalLoops := func(g *ssa.Function) map[cfgx.Edge]bool {
+		out := map[cfgx.Edge]bool{}
+		rb := blocksReaching(r, g, rem...)
+		for _, l := range cfgx.Loops(g) {
+			in := map[*ssa.BasicBlock]bool{}
+			for b := range rb {
+				if l.Body[b] {
+					in[b] = true
+				}
+			}
+			if len(in) == 0 || !cutsAllCycles(l, in) || len(l.Header.Succs) != 2 {
+				continue
+			}
+			for _, s := range l.Header.Succs {
+				if !l.Body[s] {
+					out[cfgx.Edge{From: l.Header, To: s}] = true
+				}
+			}
+		}
+		return out
+	}
+	for _, name := range anchors {
+		anchor := r.Func(id, name)
+		if anchor == nil {
+			continue
+		}
+		cnt := 0
+		for _, fr := range frames(r, anchor) {
+			g := fr.Fn
+			fns := fr.Fns(anchor)
+			for _, tn := range term {
+				for _, c := range callsIn(r, g, tn) {
+					n++
+					cnt++
+					key := core.Key(id, name, fmt.Sprintf("TerminateOrder#%d", cnt))
+					ok := false
+					var bad []*ssa.BasicBlock
+					for lvl := len(fr.Chain); lvl >= 0 && !ok; lvl-- {
+						h := fns[lvl]
+						at := fr.At(lvl, c)
+						exits := exitsOfRemovalLoops(h)
+						if len(exits) == 0 {
+							continue
+						}
+						ok = true
+						for _, b := range h.Blocks {
+							if !isReturnBlock(b) || !successReturnIn(r, h, b) {
+								continue
+							}
+							if p := cfgx.PathAvoiding(at.Block(), b, exits); p != nil {
+								ok = false
+								if bad == nil {
+									bad = p
+								}
+							}
+						}
+					}
+					if ok {
+						r.Discharge(id, key, r.P.Pos(c.Pos()), "every success path after the order is settled (and removed) runs the shard-removal loop to its end")
+					} else {
+						r.Violate(id, key, r.P.Pos(c.Pos()), r.P.Name(anchor)+" settles an order with TerminateOrder (which removes the order) and can then succeed without running the loop that removes the collected shard records: the shards stay stored, name an order that no longer exists, and are never released", pathDesc(r, bad))
+					}
+				}
+			}
+		}
+	}
+	r.Floor("settled_order_sites", n, 2)
+}
+
+// ---------------------------------------------------------------- unbinding is complete
+//
+// ruleUnbindAll (T-unbind-all): MsgUpdate removes, for every account DID in msg.RemoveAccountDid, the AccountId,
+// AccountAuth and account-list entries in loops over that list, and the reverse index Did[accountId] in a loop over a
+// second list of account ids collected beforehand. That second list must receive one id for every element of the
+// first (every iteration of the collecting loop appends, or leaves the handler with an error): an element that is
+// skipped loses its forward records but keeps Did[accountId] -> did, so the account still resolves to a DID whose
+// account list no longer contains it, and can never be bound again.
+func ruleUnbindAll(r *core.Run, id, anchorName string) {
+	anchor := r.Func(id, anchorName)
+	if anchor == nil {
+		return
+	}
+	// the list whose elements lose their forward records
+	fwd := ""
+	for _, dc := range deepCalls(r, anchor, "did/keeper.Keeper.RemoveAccountId") {
+		if l := rangedListOf(dc.Fr.Fn, dc.Call); l != nil {
+			fwd = normT(dc.Fr.Sub(r.Resolver(dc.Fr.Fn).Of(l).String()))
+		}
+	}
+	n := 0
+	for _, dc := range deepCalls(r, anchor, "did/keeper.Keeper.RemoveDid") {
+		n++
+		key := core.Key(id, anchorName, fmt.Sprintf("RemoveDid#%d", n))
+		pos := r.P.Pos(dc.Call.Pos())
+		l := rangedListOf(dc.Fr.Fn, dc.Call)
+		if l == nil || fwd == "" {
+			r.Undecide(id, key, pos, "the lists ranged over by the RemoveDid / RemoveAccountId loops were not identified")
+			continue
+		}
+		ok, why, g, loop := accumulatesAllL(r, dc.Fr.Fn, l)
+		over := ""
+		if loop != nil {
+			over = rangedOver(r, g, loop)
+			// express the helper's parameter in the handler's vocabulary
+			for _, fr := range frames(r, anchor) {
+				if fr.Fn == g {
+					over = normT(fr.Sub(over))
+				}
+			}
+		}
+		switch {
+		case ok && over == fwd:
+			r.Discharge(id, key, pos, "the account ids whose reverse index is removed are collected one per element of the list whose forward records are removed ("+shorten(fwd)+")")
+		case ok:
+			r.Violate(id, key, pos, "the account ids whose reverse index Did[accountId] is removed are collected from "+shorten(over)+", not from the list whose forward records are removed ("+shorten(fwd)+"): the two can disagree, leaving Did[accountId] entries for accounts that are no longer in the DID's account list")
+		default:
+			r.Violate(id, key, pos, "MsgUpdate removes AccountId/AccountAuth/account-list entries for every element of "+shorten(fwd)+" but collects the account ids whose reverse index Did[accountId] is removed selectively: "+why+". A skipped account keeps Did[accountId] -> did although it left the DID's account list, and can never be bound again")
+		}
+	}
+	r.Floor("unbind_reverse_index_sites", n, 1)
+}
+
+// ---------------------------------------------------------------- the candidate list is used only through the ignore filter
+//
+// ruleFilterUse (T-filter-use): RandomSP reads the eligible normal nodes and removes the providers on the ignore
+// list from that list before anything is chosen from it. The unfiltered list value may therefore be used only by
+// the filter itself (the loop over the ignore list, or a helper that receives the list together with the ignore
+// list): any other use — returned, prepended to, sorted, indexed — hands out providers that already hold (or timed
+// out on) a shard of the order. In-place filtering makes this easy to get wrong: the old slice header still spans
+// the removed elements.
+func ruleFilterUse(r *core.Run, id, anchorName, queryName string) {
+	anchor := r.Func(id, anchorName)
+	if anchor == nil {
+		return
+	}
+	n := 0
+	for _, fr := range frames(r, anchor) {
+		g := fr.Fn
+		res := r.Resolver(g)
+		// the ignore list in this frame: a []string parameter (of the anchor: the ignore argument)
+		var ignore []ssa.Value
+		for _, p := range g.Params {
+			if p.Type().String() == "[]string" {
+				ignore = append(ignore, p)
+			}
+		}
+		isIgnore := func(v ssa.Value) bool {
+			for _, x := range ignore {
+				if x == v {
+					return true
+				}
+			}
+			return false
+		}
+		// filter loops: loops of g ranging over the ignore list
+		filterBody := map[*ssa.BasicBlock]bool{}
+		filterHeader := map[*ssa.BasicBlock]bool{}
+		for _, l := range cfgx.Loops(g) {
+			iff := cfgx.IfOf(l.Header)
+			if iff == nil {
+				continue
+			}
+			bo, ok := iff.Cond.(*ssa.BinOp)
+			if !ok {
+				continue
+			}
+			lc, ok := bo.Y.(*ssa.Call)
+			if !ok || len(lc.Call.Args) != 1 || !isIgnore(lc.Call.Args[0]) {
+				continue
+			}
+			filterHeader[l.Header] = true
+			for b := range l.Body {
+				filterBody[b] = true
+			}
+		}
+		// ... and loops that walk a list and consult the ignore list for every element (a filter that builds a new list)
+		for _, l := range cfgx.Loops(g) {
+			if filterHeader[l.Header] {
+				continue
+			}
+			consults := false
+			for b := range l.Body {
+				if filterHeader[b] {
+					consults = true
+				}
+				for _, ins := range b.Instrs {
+					if c, ok := ins.(ssa.CallInstruction); ok {
+						for _, a := range c.Common().Args {
+							if isIgnore(a) {
+								if _, isBuiltin := c.Common().Value.(*ssa.Builtin); !isBuiltin {
+									consults = true
+								}
+							}
+						}
+					}
+				}
+			}
+			if consults {
+				for b := range l.Body {
+					filterBody[b] = true
+				}
+			}
+		}
+		for _, c := range callsIn(r, g, queryName) {
+			q, ok := c.(*ssa.Call)
+			if !ok {
+				continue
+			}
+			n++
+			key := core.Key(id, anchorName, fmt.Sprintf("candidates#%d", n))
+			var bad ssa.Instruction
+			seen := map[ssa.Value]bool{}
+			var visit func(v ssa.Value)
+			visit = func(v ssa.Value) {
+				if seen[v] || bad != nil {
+					return
+				}
+				seen[v] = true
+				for _, u := range *v.Referrers() {
+					if bad != nil {
+						return
+					}
+					if u.Block() != nil && filterBody[u.Block()] {
+						continue // inside the filter loop
+					}
+					switch x := u.(type) {
+					case *ssa.Phi:
+						if filterHeader[x.Block()] {
+							continue // the filtered list, as seen after the loop
+						}
+						visit(x) // a plain merge: still unfiltered
+					case *ssa.DebugRef:
+					case *ssa.Call:
+						if bi, ok := x.Call.Value.(*ssa.Builtin); ok && bi.Name() == "len" {
+							continue
+						}
+						// handed to a helper together with the ignore list: that helper is the filter
+						h := x.Call.StaticCallee()
+						withIgnore := false
+						for _, a := range x.Call.Args {
+							if isIgnore(a) {
+								withIgnore = true
+							}
+						}
+						if h != nil && r.P.Transparent(h) && withIgnore {
+							continue
+						}
+						bad = u
+					default:
+						bad = u
+					}
+				}
+			}
+			visit(q)
+			if bad == nil {
+				r.Discharge(id, key, r.P.Pos(q.Pos()), "the unfiltered candidate list is used only by the ignore filter")
+			} else {
+				r.Violate(id, key, r.P.Pos(bad.Pos()), "RandomSP uses the list of eligible nodes as read from the store ("+shorten(normT(res.Of(q).String()))+") outside the ignore filter: providers on the ignore list (they already hold, or timed out on, a shard of this order) — or, after in-place filtering, duplicated trailing entries — can be handed out, so two replicas of one order land on the same provider")
+			}
+		}
+	}
+	r.Floor("candidate_queries", n, 1)
+}
+
+// ---------------------------------------------------------------- sources of a value, with the place where each is chosen
+
+type valSrc struct {
+	Fr  frame
+	Val ssa.Value
+	At  *ssa.BasicBlock // control is here when this source is chosen (φ: the predecessor; helper: the return block)
+}
+
+func childFrame(r *core.Run, anchor *ssa.Function, fr frame, call ssa.CallInstruction) *frame {
+	for _, c := range frames(r, anchor) {
+		if len(c.Chain) != len(fr.Chain)+1 || c.Chain[len(c.Chain)-1] != call {
+			continue
+		}
+		same := true
+		for i := range fr.Chain {
+			if c.Chain[i] != fr.Chain[i] {
+				same = false
+			}
+		}
+		if same {
+			x := c
+			return &x
+		}
+	}
+	return nil
+}
+
+// valueSources follows a value through φs and through the results of helpers outside the vocabulary to the
+// expressions it can stand for.
+func valueSources(r *core.Run, anchor *ssa.Function, fr frame, v ssa.Value, at *ssa.BasicBlock, depth int, seen map[ssa.Value]bool) []valSrc {
+	if seen[v] || depth > 8 {
+		return nil
+	}
+	seen[v] = true
+	switch x := v.(type) {
+	case *ssa.Phi:
+		var out []valSrc
+		for i, e := range x.Edges {
+			out = append(out, valueSources(r, anchor, fr, e, x.Block().Preds[i], depth+1, seen)...)
+		}
+		return out
+	case *ssa.Call:
+		if h := x.Call.StaticCallee(); h != nil && r.P.Transparent(h) && len(h.Blocks) > 0 && h.Signature.Results().Len() == 1 {
+			if cf := childFrame(r, anchor, fr, x); cf != nil {
+				var out []valSrc
+				for _, b := range h.Blocks {
+					if ret, ok := b.Instrs[len(b.Instrs)-1].(*ssa.Return); ok && len(ret.Results) == 1 {
+						out = append(out, valueSources(r, anchor, *cf, ret.Results[0], b, depth+1, seen)...)
+					}
+				}
+				return out
+			}
+		}
+	}
+	return []valSrc{{fr, v, at}}
+}
+
+// ruleSharesToSub (T-shares-sub): the staking hooks run before the validator's share total reflects an unbonding,
+// so verifySuperStorageNodes hands CheckDelegationShare the shares still to be subtracted. That amount may be
+// non-zero only when the delegator's shares went down (sharesBeforeModified > current shares) or the delegation is
+// being removed: on a top-up the validator total already contains the new shares, and subtracting them again judges
+// every node of the validator against the total from before the top-up.
+func ruleSharesToSub(r *core.Run, id, anchorName string) {
+	anchor := r.Func(id, anchorName)
+	if anchor == nil {
+		return
+	}
+	n := 0
+	for _, dc := range deepCalls(r, anchor, "node/keeper.Keeper.CheckDelegationShare") {
+		args := dc.Call.Common().Args
+		if len(args) < 2 {
+			continue
+		}
+		v := args[len(args)-1]
+		srcs := valueSources(r, anchor, dc.Fr, v, dc.Call.Block(), 0, map[ssa.Value]bool{})
+		for _, s := range srcs {
+			t := normT(r.Resolver(s.Fr.Fn).Of(s.Val).String())
+			if t == "sdk.NewDec(0)" || t == "sdk.ZeroDec()" {
+				continue
+			}
+			n++
+			key := core.Key(id, anchorName, fmt.Sprintf("sharesToSub source#%d", n))
+			ck := frameChecker(r, anchor, s.Fr.Chain, len(s.Fr.Chain))
+			// the removal flag is the handler's last parameter
+			flag := fmt.Sprintf("#%d", len(anchor.Params)-1)
+			ok, w := ck.MustPass(s.At, []guard.Atom{
+				guard.True("sdk.Dec.GT(*sharesBeforeModified,*GetShares(*))"),
+				guard.True(flag),
+			})
+			pos := r.P.Pos(s.Val.Pos())
+			if !s.Val.Pos().IsValid() {
+				pos = r.P.Pos(dc.Call.Pos())
+			}
+			if ok {
+				r.Discharge(id, key, pos, "a non-zero amount to subtract is chosen only when the delegator's shares decreased or the delegation is being removed")
+			} else {
+				r.Violate(id, key, pos, "the shares handed to CheckDelegationShare for subtraction from the validator total ("+shorten(t)+") can be non-zero although the delegator's shares did not decrease and the delegation is not being removed (e.g. a top-up of an existing delegation): the validator total already contains the new shares, so every node of that validator is judged against a too small total — diluted super nodes keep the role and a node is promoted below the threshold", append([]string{"path (branch decisions):"}, w...)...)
+			}
+		}
+	}
+	r.Floor("shares_to_sub_sources", n, 2)
 }
